@@ -332,6 +332,9 @@ func execURL(sim *core.Sim, prop string, p *Plan, out *core.Outcome) {
 				continue
 			}
 			sim.Probe("raw-strings-parsed")
+			if len(u.Target) < 3 {
+				sim.Violate(prop, "refusal", "short-target-returned", "ParseURL(%s) returned the %d-byte target %q without an error", q(raw), len(u.Target), u.Target)
+			}
 			// whatever parsed must dispatch to the dialer of its scheme
 			reg, _ := newStub(c.Stub, id)
 			reg(u.Scheme)
